@@ -41,10 +41,14 @@ func SetE(o, k, e N) N {
 	return N{"ste(" + o.SX + "," + k.SX + "," + e.SX + ")", "(" + o.JS + "[" + k.JS + "] = " + e.JS + ")"}
 }
 func Del(o N, p string) N { return N{"dl(" + o.SX + "," + p + ")", "(delete " + o.JS + "." + p + ")"} }
-func DelV(x string) N { return N{"dlv(" + x + ")", "(delete " + x + ")"} }
+func DelV(x string) N     { return N{"dlv(" + x + ")", "(delete " + x + ")"} }
 
 // DelX is delete (e) for an e that is not a reference (a conditional, a comma expression).
 func DelX(e N) N { return N{"dlx(" + e.SX + ")", "(delete (" + e.JS + "))"} }
+
+// ProtoOf is Object.getPrototypeOf(e); Regex is the literal /x/.
+func ProtoOf(e N) N { return N{"pro(" + e.SX + ")", "Object.getPrototypeOf(" + e.JS + ")"} }
+func Regex() N      { return N{"rgx", "/x/"} }
 
 // Cond is (t ? a : b).
 func Cond(t, a, b N) N {
